@@ -27,6 +27,7 @@ func init() {
 			NotCovered: "EQUALITY WITH THE SHA-256 SET MODEL (that Matches/Hashes return exactly the listed names' hashes) and THE PUBLIC-SUFFIX / FOUR-LABEL CUT of hashableSubdomains: " +
 				"hash and string computations outside static reach.",
 			Rules: map[string]string{"C11-R1": "question-type gates", "C11-R2": "prefix length table", "C11-R3": "refuse, not forward", "C11-R4": "digest split agreement",
+				"C11-R13": "(*Storage).Matches compares the digest with every suffix of its bucket (a range loop left early only by the hit); binary searches need a sorted-data discipline (shared rule, also run over bindtodevice's index as the positive instance)",
 				"C11-R7":  "hashprefix.Filter.FilterRequest: cache first; then the type gate; then every candidate name (host and parents) is matched in order until the first hit; a hit is answered with the replacement built for this request and cached under this request's key",
 				"C11-R11": "builder wiring of the three hash-prefix filters: each filter's ID, cache file, hash storage, list URL and target field belong to the same list (two lists never share a cache file or a storage)",
 				"C11-R9":  "every name hashed by Storage.Reset comes from a line source that removes the whole line terminator (bufio.Scanner's line splitting, or an explicit trim): a carriage return left on the name changes its hash",
@@ -132,6 +133,11 @@ func runC11(c *an.Ctx) {
 	hashprefixFilteredResult(c, "C11-R7")
 	hashprefixSubdomains(c, "C11-R7")
 	hashprefixMatchByPrefix(c, "C11-R3")
+	hashprefixPrefixStr(c, "C11-R3")
+	// ---- R13: a stored digest is found wherever it sits in its bucket: the bucket is scanned to the end,
+	// and any binary search in the package runs over data the package keeps sorted
+	c.Floor("C11-R13", 1)
+	c11BucketScan(c)
 
 	// ---- R2
 	encLen, _ := c.ConstInt("filter/hashprefix", "PrefixEncLen")
@@ -187,7 +193,7 @@ func runC11(c *an.Ctx) {
 				case encLen:
 					want = append(want, fmt.Sprintf("s%d", i))
 				case 8:
-					want = append(want, fmt.Sprintf("slice(s%d)", i))
+					want = append(want, fmt.Sprintf("s%d[:%d]", i, encLen))
 				default:
 					bad = true
 				}
@@ -661,6 +667,81 @@ func hashprefixMatchByPrefix(c *an.Ctx, rule string) {
 	})
 }
 
+// hashprefixPrefixStr checks the string handed to prefixesFromStr: the queried
+// name with exactly the matched suffix cut off its end (a slice up to
+// len(host)-len(suffix), or strings.TrimSuffix / CutSuffix with that suffix).
+// A cut-set trim (strings.TrimRight) also removes hex digits that occur in the
+// suffix's character set.
+func hashprefixPrefixStr(c *an.Ctx, rule string) {
+	fn := c.Fn("filter/hashprefix.(*Matcher).MatchByPrefix")
+	if fn == nil {
+		c.Und(rule, "filter/hashprefix.(*Matcher).MatchByPrefix prefix string", token.NoPos, "anchor not found")
+		return
+	}
+	n := 0
+	for _, call := range an.Calls(fn) {
+		if !strings.HasSuffix(an.CalleeName(call), "hashprefix.prefixesFromStr") {
+			continue
+		}
+		n++
+		bad := ""
+		seen := map[ssa.Value]bool{}
+		var walk func(v ssa.Value)
+		walk = func(v ssa.Value) {
+			if seen[v] {
+				return
+			}
+			seen[v] = true
+			switch x := v.(type) {
+			case *ssa.Phi:
+				for _, e := range x.Edges {
+					walk(e)
+				}
+			case *ssa.Const:
+			case *ssa.Slice:
+				hi, ok := x.High.(*ssa.BinOp)
+				if _, isParam := x.X.(*ssa.Parameter); !isParam || x.Low != nil || !ok || hi.Op != token.SUB || !isLenOf(hi.X, x.X) || !isLenCall(hi.Y) {
+					bad = "a slice of the name other than host[:len(host)-len(suffix)]"
+				}
+			case *ssa.Call:
+				switch an.CalleeName(x) {
+				case "strings.TrimSuffix":
+				default:
+					bad = "result of " + an.Short(an.CalleeName(x))
+				}
+			case *ssa.Extract:
+				if call, ok := x.Tuple.(*ssa.Call); ok && an.CalleeName(call) == "strings.CutSuffix" && x.Index == 0 {
+					return
+				}
+				bad = "an extracted value"
+			default:
+				bad = fmt.Sprintf("%T value", v)
+			}
+		}
+		walk(call.Common().Args[0])
+		c.Check(bad == "", rule, "filter/hashprefix.(*Matcher).MatchByPrefix prefix string", call.Pos(),
+			"the prefix list is the name with exactly the matched suffix cut off",
+			"the prefix list handed to prefixesFromStr is "+bad+", not the name minus the matched suffix")
+	}
+	if n == 0 {
+		c.Und(rule, "filter/hashprefix.(*Matcher).MatchByPrefix prefix string", fn.Pos(), "no call of prefixesFromStr")
+	}
+}
+
+func isLenCall(v ssa.Value) bool {
+	call, ok := v.(*ssa.Call)
+	if !ok {
+		return false
+	}
+	b, ok := call.Call.Value.(*ssa.Builtin)
+	return ok && b.Name() == "len"
+}
+
+func isLenOf(v, of ssa.Value) bool {
+	call, ok := v.(*ssa.Call)
+	return ok && isLenCall(v) && call.Call.Args[0] == of
+}
+
 // c11LineSource checks where the names hashed into the storage come from.
 func c11LineSource(c *an.Ctx) {
 	c.Floor("C11-R9", 1)
@@ -787,4 +868,99 @@ func c11BuilderWiring(c *an.Ctx) {
 		c.Check(strings.HasSuffix(hashes, "."+w.hashes) && strings.Contains(url, "."+w.url+"."), "C11-R11", w.fn+" storage and URL", fn.Pos(),
 			"the filter fills its own hash storage from its own URL", fmt.Sprintf("the filter is wired to storage %s and URL %s of another list", hashes, url))
 	}
+}
+
+
+// c11BucketScan: the membership test of a bucket.
+func c11BucketScan(c *an.Ctx) {
+	const name = "filter/hashprefix.(*Storage).Matches"
+	n := sharedSortedSearch(c, "C11-R13", "filter/hashprefix.", "bindtodevice.")
+	fn := c.Fn(name)
+	if fn == nil {
+		c.Und("C11-R13", name+" bucket scan", token.NoPos, "anchor not found")
+		return
+	}
+	c.Analysed(name)
+	// the loaded bucket
+	var bucket ssa.Value
+	for _, call := range an.Calls(fn) {
+		if strings.HasSuffix(an.CalleeName(call), "hashprefix.Storage).loadHashSuffixes") {
+			if cv, ok := call.(*ssa.Call); ok && cv.Referrers() != nil {
+				for _, r := range *cv.Referrers() {
+					if ex, ok := r.(*ssa.Extract); ok && ex.Index == 0 {
+						bucket = ex
+					}
+				}
+			}
+		}
+	}
+	if bucket == nil {
+		c.Und("C11-R13", name+" bucket scan", fn.Pos(), "the bucket is not loaded through loadHashSuffixes")
+		return
+	}
+	scans := 0
+	for _, l := range naturalLoops(fn) {
+		if !strings.Contains(loopSubject(l), "loadHashSuffixes") && !loopRangesOver(l, bucket) {
+			continue
+		}
+		scans++
+		// every exit of the loop other than exhaustion returns true
+		bad := ""
+		for b := range l.blocks {
+			for _, s := range b.Succs {
+				if l.blocks[s] || s == l.done {
+					continue
+				}
+				// leaving the loop: must be a return of constant true
+				ret, ok := s.Instrs[len(s.Instrs)-1].(*ssa.Return)
+				if !ok || len(ret.Results) != 1 {
+					c.Und("C11-R13", name+" bucket scan", fn.Pos(), "a loop exit that is not a plain return: idiom not recognised")
+					continue
+				}
+				if k, ok := ret.Results[0].(*ssa.Const); !ok || k.Value == nil || k.Value.String() != "true" {
+					bad = "an early exit that does not report a hit"
+				}
+			}
+		}
+		for _, b := range l.done.Preds {
+			if b != l.header && l.header.Dominates(b) {
+				bad = "a break"
+			}
+		}
+		c.Check(bad == "", "C11-R13", name+" bucket scan", fn.Pos(),
+			"the bucket is scanned until a hit or its end", "the scan of the bucket can stop before its end through "+bad)
+	}
+	if scans == 0 {
+		if n > 0 {
+			// no linear scan: the verdict rests on the sorted-search obligations above
+			c.Inf("C11-R13", name+" bucket scan", fn.Pos(), "no linear scan of the bucket; membership is decided by a binary search (see the sorted-search obligation)")
+			return
+		}
+		c.Und("C11-R13", name+" bucket scan", fn.Pos(), "neither a range loop over the bucket nor a binary search was recognised")
+	}
+}
+
+// loopRangesOver reports whether the loop's header compares its index with len(v).
+func loopRangesOver(l *loopInfo, v ssa.Value) bool {
+	for _, in := range l.header.Instrs {
+		if b, ok := in.(*ssa.BinOp); ok {
+			for _, side := range []ssa.Value{b.X, b.Y} {
+				if isLenOf(side, v) {
+					return true
+				}
+			}
+		}
+	}
+	// the length may be taken in the preheader
+	for _, p := range l.header.Preds {
+		if l.blocks[p] {
+			continue
+		}
+		for _, in := range p.Instrs {
+			if call, ok := in.(*ssa.Call); ok && isLenOf(call, v) {
+				return true
+			}
+		}
+	}
+	return false
 }
